@@ -50,7 +50,7 @@ def graph_stage(ctx, binary, vtypes, maxts, exps, valbound, label, wide=None, ra
     devs = vlib.open_devs(ctx.prop)
     mc = mm.mc_module(TUPLES, BAD, expiries=exps, vtypes=vtypes, wide=wide)
     g = mm.Graph()
-    r = vlib.tlc(ctx, "MCMetric", mm.cfg("graph", maxts=maxts, valbound=valbound, invariants=INVS, view="View"),
+    r = vlib.tlc(ctx, "MCMetric", mm.cfg("graph", maxts=maxts, valbound=valbound, invariants=INVS, view="GraphView"),
                  extra_files={"MCMetric.tla": mc}, case_sink=g.add, label="Metric-graph-" + label, timeout=1500)
     g.check_closed()
     if len(g.edges) != r.distinct:
@@ -63,7 +63,7 @@ def graph_stage(ctx, binary, vtypes, maxts, exps, valbound, label, wide=None, ra
         if "g" not in cache:
             gd = mm.Graph()
             vlib.tlc(ctx, "MCMetric", mm.cfg("graph", dev="DEV_BackslashNotEscaped" in devs, maxts=maxts, valbound=valbound,
-                                              invariants=["Emit"], view="View"),
+                                              invariants=["Emit"], view="GraphView"),
                      extra_files={"MCMetric.tla": mc}, case_sink=gd.add, label="Metric-graph-dev-" + label, timeout=1500)
             cache["g"] = gd
         return cache["g"]
